@@ -18,10 +18,19 @@ MANIFEST = dict(
           "are re-translated from the sources on every run; the extracted model replays every recorded run of the real "
           "library (registered smooth functions, random quadratics, adversarial 1-D oracles) and must request the same "
           "probes and return the same (ok, t) bit for bit; an independent oracle recomputes the advertised conditions "
-          "from the user function at the accepted point."),
-    note=("Coq kernel + primitive floats (= IEEE binary64 of the host); translator (33 kernels, PrimFloat reading "
-          "derived in tools/checks/c07.py); extraction (ExtrOcamlBasic, ExtrOCamlFloats); recording function_t harness + "
-          "OCaml driver; 'succeeds on convex quadratics' and 't > 0' are searched, not proved."),
+          "from the user function at the accepted point. INIT extension: the step-length initialisers lsearch0_t (constant / "
+          "linear / quadratic / cgdescent, with the mutable members m_prevf / m_prevdg and the one value-only trial evaluation of "
+          "lsearch0-cgdescent) and lsearch_t::get (lsearch0->get, lsearchk->get, m_last_step_size) are inside the model as a state "
+          "machine over whole runs; proved for every history: the closed forms in terms of the previous call's (f, dg), t0 in [0, 1] for "
+          "linear / quadratic along descent directions (t0 > 0 and finite is refuted with witnesses reproduced on the library: 0 by "
+          "underflow / dg = -inf, +inf and -inf from lsearch0-cgdescent), the clamp of lsearchk_t::get maps EVERY t0 into [stpmin, 1], the "
+          "success theorems for the composed search, at most one extra evaluation per iteration. Every t0 of recorded call sequences "
+          "(crafted states, whole runs of 17 solvers, the real lsearch_t iterated) is reproduced bit for bit by the extracted machine."),
+    note=("Coq kernel + primitive floats (= IEEE binary64 of the host); translator (79 kernels incl. 46 of src/lsearch0*.cpp / lsearch.h, "
+          "PrimFloat reading derived in tools/checks/c07.py, std::min/std::max read as libstdc++ defines them); extraction "
+          "(ExtrOcamlBasic, ExtrOCamlFloats); recording function_t / recording lsearch0_t harnesses + OCaml driver; the Eigen reductions "
+          "g.d, |x|_inf, |g|_inf, g.g are inputs taken from the run; 'succeeds on convex quadratics', 't > 0' and 'lsearch0 returns a "
+          "finite positive step' are searched, not proved (the last one is false: reported as a candidate finding, hidden by the clamp)."),
     technique="Coq proof over a translated+extracted PrimFloat model, bit-exact differential replay, direct oracle",
     design="DESIGN.md section 2, C07")
 
@@ -102,7 +111,10 @@ def _emit(e):
         a, b = args
         table = {"Z.quot": "(%s / %s)" % (a, b), "Z.ltb": "(PrimFloat.ltb %s %s)" % (a, b),
                  "Z.leb": "(PrimFloat.leb %s %s)" % (a, b), "Z.gtb": "(PrimFloat.ltb %s %s)" % (b, a),
-                 "Z.geb": "(PrimFloat.leb %s %s)" % (b, a), "Z.eqb": "(PrimFloat.eqb %s %s)" % (a, b)}
+                 "Z.geb": "(PrimFloat.leb %s %s)" % (b, a), "Z.eqb": "(PrimFloat.eqb %s %s)" % (a, b),
+                 # libstdc++: std::min(a, b) = (b < a) ? b : a, std::max(a, b) = (a < b) ? b : a (NaN / signed zeros included)
+                 "Z.min": "(if PrimFloat.ltb %s %s then %s else %s)" % (b, a, b, a),
+                 "Z.max": "(if PrimFloat.ltb %s %s then %s else %s)" % (a, b, b, a)}
         if f in table:
             return table[f]
     raise vlib.CheckError("float reading: %s has no PrimFloat reading" % f)
@@ -118,7 +130,7 @@ def gen_float_twin():
              "   PrimFloat reading of the translated line-search kernels: same expression trees, IEEE binary64 operations. *)\n"
              "From Coq Require Import Bool Floats.\nLocal Open Scope float_scope.\n"]
     n = 0
-    for m in re.finditer(r"^(\(\* [^\n]*\*\)\n)Definition (\w+) ((?:\([^)]*\) ?)*): (\w+) := (.*)\.$", src, re.M):
+    for m in re.finditer(r"^(\(\* [^\n]*\*\)\n)Definition (\w+) ((?:\([^)]*\) ?)*) ?: (\w+) := (.*)\.$", src, re.M):
         cm, name, args, ty, body = m.groups()
         toks = _tok(body)
         ast, i = _parse(toks, 0)
@@ -157,12 +169,15 @@ def coq_side():
 
 
 HARNESS = "c07_lsearch"
+INIT_HARNESS = "c07_init"
+INIT_T0_FP = "C07-lsearch0-t0-not-finite-positive"
 STALE_FP = "C07-success-with-stale-invalid-state"
 CGHALF_FP = "C07-cgdescent-fails-on-quadratic-c1-ge-half"
 
 
 def setup():
     vlib.build_harness(HARNESS, "rel", need_lib=True)
+    vlib.build_harness(INIT_HARNESS, "rel", need_lib=True)
     try:
         coq_side()
         vlib.build_ocaml("c07_driver", "c07_model.ml", "c07_driver.ml", floats=True)
@@ -184,6 +199,116 @@ def _ls_line(exe, tier, seed, cid):
         if l.startswith("LS "):
             return l[:8000]
     return ""
+
+
+def _init_stage(r, tier, drv, candidates):
+    """INIT stage: the step-length initialisers lsearch0_t and lsearch_t::get (harness/c07_init.cpp) replayed by the extracted
+    state machine (lsearch0_get / lsearch_get of C07_Init_Defs.v): every t0 bit for bit over whole call sequences, the trial
+    evaluation of lsearch0-cgdescent, and in mode comp the probes / ok / m_last_step_size of the composition"""
+    exe = vlib.build_harness(INIT_HARNESS, "rel", need_lib=True)
+    rundir = os.path.join(vlib.WORK, "c07")
+    os.makedirs(rundir, exist_ok=True)
+    out_path = os.path.join(rundir, "init-%d-%s.txt" % (r.seed, tier))
+    drv_path = os.path.join(rundir, "initdrv-%d-%s.txt" % (r.seed, tier))
+    rc, err = vlib.sh("%s %s > %s" % (shlex.quote(exe), shlex.quote(tier), shlex.quote(out_path)), timeout=3000,
+                      env={"VERIF_SEED": str(r.seed)})
+    fails, cands, done, hist, last, samples = [], [], [], "", [], []
+    n_calls, n_ls = 0, 0
+    nontriv = set()
+    with open(out_path, errors="replace") as f:
+        for l in f:
+            l = l.rstrip("\n")
+            if l.startswith("I0CALL "):
+                n_calls += 1
+                nontriv.add(vlib.sha(l.split(" ", 3)[3]))
+                if len(samples) < 3:
+                    samples.append(l[:400])
+            elif l.startswith("I0LS "):
+                n_ls += 1
+            elif l.startswith("FAIL "):
+                fails.append(l)
+            elif l.startswith("CAND "):
+                cands.append(l)
+            elif l.startswith("I0HIST"):
+                hist = l
+            elif l.startswith("DONE "):
+                done.append(l)
+            last = (last + [l[:600]])[-4:]
+    replay_cmd = lambda cid: "VERIF_SEED=%d %s %s %s" % (r.seed, exe, tier, cid)
+
+    def case_of(cid):
+        if not str(cid).isdigit():
+            return ""
+        rc_, out_ = vlib.sh([exe, tier, str(cid)], timeout=300, env={"VERIF_SEED": str(r.seed)})
+        return "\n".join(x[:1200] for x in out_.split("\n") if x.startswith(("I0BEGIN", "I0CALL", "I0LS", "I0END")))[:6000]
+
+    if rc != 0 or not done:
+        r.violation("init-crash", {"kind": "INIT harness crashed / did not finish", "exit": rc, "stderr": err[-1500:], "last_lines": last,
+                                   "replay_cmd": "VERIF_SEED=%d %s %s" % (r.seed, exe, tier)}, fingerprint="crash")
+    for i, l in enumerate(fails[:3]):
+        cid = _case_id(l)
+        r.violation("init-impl-%d" % i, {"kind": "direct check of the step-length initialiser failed on the implementation (closed form from the previous "
+                                                 "call's (fx, dg) / t0 in [0, 1] / evaluations / trial point / first trial point of lsearchk / step after a refusal)",
+                                         "failure": l[:1500], "case": case_of(cid), "replay_cmd": replay_cmd(cid),
+                                         "meaning": "I0BEGIN id mode kind(0 constant 1 linear 2 quadratic 3 cgdescent) desc | eps const_t0 lin_beta lin_alpha quad_beta quad_alpha "
+                                                    "phi0 phi1 phi2 | lsearchk cfg ; I0CALL id i | last valid fx dg |x|inf |g|inf g.g | ntrial ftrial | nJ x_J d_J trial_J = t0 ; "
+                                                    "I0LS id i | probes(valid,f,dg,x_J) = ok"})
+    if cands:
+        payload = {"kind": "lsearch0_t::get returned a step that is not finite and > 0 on a valid state along a descent direction (history of descent "
+                           "directions); lsearchk_t::get's clamp to [stpmin, 1] hides it (C07_init_step_in_range)",
+                   "cases": [l[:700] for l in cands[:5]], "count": len(cands), "first_case": case_of(_case_id(cands[0]))[:4000],
+                   "replay_cmd": replay_cmd(_case_id(cands[0]))}
+        if any(f.get("fingerprint") == INIT_T0_FP for f in r.kf):
+            r.violation(INIT_T0_FP, payload, fingerprint=INIT_T0_FP)
+        else:
+            candidates.append(dict(payload, fingerprint=INIT_T0_FP))
+    n_mism, checked, hists, init_done = 0, 0, {}, ""
+    if drv:
+        rc2, derr = vlib.sh("%s < %s > %s" % (shlex.quote(drv), shlex.quote(out_path), shlex.quote(drv_path)), timeout=3000)
+        mism = []
+        with open(drv_path, errors="replace") as f:
+            for l in f:
+                l = l.rstrip("\n")
+                if l.startswith(("MISMATCH", "PROPFAIL")):
+                    n_mism += 1
+                    if len(mism) < 200:
+                        mism.append(l)
+                elif l.startswith("HIST "):
+                    p = l.split(" ")
+                    hists[p[1]] = {kv.rpartition("=")[0]: int(kv.rpartition("=")[2]) for kv in p[2:]}
+                elif l.startswith("INIT-DONE"):
+                    init_done = l
+                elif l.startswith("MODEL-DONE"):
+                    checked = int(l.split("checked=")[1].split()[0])
+        if rc2 != 0 or not checked:
+            r.violation("init-driver", {"kind": "model driver failed on the INIT stage", "out": derr[-2000:]}, no_input=True)
+        prop = [l for l in mism if l.startswith("PROPFAIL")]
+        corr = [l for l in mism if l.startswith("MISMATCH")]
+        for i, l in enumerate(prop[:3]):
+            cid = l.split(" ")[2] if len(l.split(" ")) > 2 else "?"
+            r.violation("init-prop-%d" % i, {"kind": "a proved conclusion of the INIT stage (clamp(t0) in [stpmin, 1], composed evaluation bound) fails on the data "
+                                                     "recorded from the implementation", "case": l[:3000], "block": case_of(cid), "replay_cmd": replay_cmd(cid)})
+        for i, l in enumerate(corr[:3]):
+            cid = l.split(" ")[2] if len(l.split(" ")) > 2 else "?"
+            r.violation("init-corr-%d" % i, {"kind": "model/implementation disagreement (INIT stage, bit-exact replay of the lsearch0 state machine / lsearch_t::get)",
+                                             "case": l[:3000], "block": case_of(cid), "replay_cmd": replay_cmd(cid),
+                                             "meaning": "the extracted lsearch0_get / lsearch_get, fed with the recorded view (fx, dg, norms), trial value and probe answers and "
+                                                        "carrying m_prevf / m_prevdg / m_last_step_size itself, returns a different t0 / requests other points / hands on another step"},
+                        no_input=not (fails or prop))
+    for pth in (out_path, drv_path):
+        try:
+            os.remove(pth)
+        except OSError:
+            pass
+    st = {}
+    if done:
+        for kv in done[-1].split()[1:]:
+            k, _, v = kv.partition("=")
+            st[k] = int(v) if v.isdigit() else v
+    return {"calls": n_calls, "composed_line_searches": n_ls, "distinct_calls": len(nontriv), "correspondence_lines_checked": checked, "mismatches": n_mism,
+            "impl_direct_failures": len(fails), "t0_not_finite_positive_on_valid_descent_states": len(cands), "harness_counts": st,
+            "branch_histogram": {kv.rpartition("=")[0]: int(kv.rpartition("=")[2]) for kv in hist.split()[1:]},
+            "t0_classes_by_kind(0 constant 1 linear 2 quadratic 3 cgdescent)": hists.get("init_t0_classes", {}), "driver": init_done, "samples": samples}
 
 
 def run(tier, replay=None):
@@ -311,6 +436,7 @@ def run(tier, replay=None):
         n_mism = 0
         hists = {}
         evalb = {}
+    init_cov = _init_stage(r, tier, drv, candidates)
     for pth in (out_path, drv_path):       # several hundred MB in the thorough tier; every replay_cmd regenerates its case
         try:
             os.remove(pth)
@@ -318,7 +444,8 @@ def run(tier, replay=None):
             pass
     vlib.handle_coq_failure(r, cres)
     vlib.proof_coverage(r, cres, "make -C coq theories/Properties_C07.vo && coqc theories/Properties_C07.v (Print Assumptions)",
-                        ["tools/translate.py (33 kernels of state.cpp/state.h/lstep.cpp/lsearchk.cpp/morethuente.cpp/cgdescent.cpp) + structural PrimFloat reading (tools/checks/c07.py: gen_float_twin)",
+                        ["tools/translate.py (79 kernels of state.cpp/state.h/lstep.cpp/lsearchk.cpp/morethuente.cpp/cgdescent.cpp and, INIT stage, src/lsearch0.cpp, src/lsearch0/{constant,linear,quadratic,cgdescent}.{cpp,h}, solver/lsearch.h) + structural PrimFloat reading (tools/checks/c07.py: gen_float_twin; std::min/std::max as libstdc++ defines them)",
+                         "INIT stage: hand-written control flow of the four lsearch0_t::get and of lsearch_t::get in C07_Init_Defs.v (tied by the bit-exact replay of every recorded call sequence); harness/c07_init.cpp (recording lsearch0_t wrapper, states injected through solver_state_t::update(x, gx, fx)); |x|_inf, |g|_inf, g.g taken from the run",
                          "Coq primitive floats = IEEE-754 binary64 of the host (PrimFloat.* in Print Assumptions)",
                          "extraction: ExtrOcamlBasic, ExtrOCamlFloats (coq-core.kernel Float64)",
                          "hand-written control flow of the five searches in C07_Defs.v (tied by the bit-exact replay of every run)",
@@ -346,8 +473,12 @@ def run(tier, replay=None):
     cov["evaluations_vs_bound"] = evalb
     for h in ("mt_success_cases", "mt_success_flags", "cg_success_cases", "cg_success_flags"):
         cov[h] = hists.get(h, {})
-    cov["mismatches"] = n_mism
-    cov["impl_direct_failures"] = len(impl_fail) + len(qfail)
+    cov["mismatches"] = n_mism + init_cov["mismatches"]
+    cov["impl_direct_failures"] = len(impl_fail) + len(qfail) + init_cov["impl_direct_failures"]
+    cov["init_stage"] = init_cov
+    cov["evaluations"] += init_cov["calls"]
+    cov["distinct_nontrivial"] += init_cov["distinct_calls"]
+    cov["correspondence_lines_checked"] += init_cov["correspondence_lines_checked"]
     cov["candidate_findings"] = candidates
     cov["samples"] = samples
     cov["unproved_clauses_searched"] = [
@@ -361,10 +492,18 @@ def run(tier, replay=None):
         "C07_cgdescent_exits_reachable); what is proved is the exact case split, and every successful run is classified into it "
         "(mt_success_cases, cg_success_cases); CG_DESCENT's sub-case a.f > f0 + epsilon_k is believed unreachable (a only holds points "
         "with approximate Armijo), not proved"]
+    cov["unproved_clauses_searched"] += [
+        "INIT: lsearch0_t::get returns a finite step > 0 on a valid state along a descent direction (false at full strength: "
+        "C07_init_t0_finite_positive_refuted, witnesses reproduced on the library; every recorded call is classified, violations on valid "
+        "descent states are the candidate finding " + INIT_T0_FP + "; proved instead: 0 <= t0 <= 1 for linear / quadratic, and "
+        "clamp(t0) in [stpmin, 1] for every t0)",
+        "INIT: 0 < |g|_inf and 0 < g.g for a descent direction (facts about the Eigen reductions, hypotheses of C07_init_cgdescent_first_nonneg)"]
     cov["excluded_inputs"] = ["max_iterations < 100, c1 > 0.99, non-default method parameters, t0 outside [1e-3,1e3] (finite), exact minimiser along d outside "
                               "[1e-10,1e10] (the searches are confined to [stpmin,stpmax]), c1 >= 1/2 with CG_DESCENT: "
                               "success on quadratics not demanded (correspondence and the success-implies-conditions oracle still apply)"]
     r.assumptions = ["x86-64 SSE2 scalar double arithmetic = PrimFloat; Eigen reductions (g.dot(d)) are taken from the run as oracle answers",
                      "the objective is evaluated only through function_t::vgrad (recorded); constraints are absent",
-                     "max_iterations >= 1 (parameter domain)"]
+                     "max_iterations >= 1 (parameter domain)",
+                     "INIT: lsearch0 only reads state.fx(), state.dg(descent), state.x().lpNorm<Inf>(), state.gx().lpNorm<Inf>(), state.gx().squaredNorm() "
+                     "and evaluates the objective through function_t::vgrad (recorded)"]
     return r.finish("proof")
